@@ -23,6 +23,44 @@ def run(ctx):
         dispersion(ctx, rng, xr, utils)
     for i, rng in ctx.cases("npstats", ctx.n(320, 8000)):
         twins(ctx, rng, npstats)
+    for i, rng in ctx.cases("zero_hz", ctx.n(96, 2000)):
+        zero_hz(ctx, rng, xr)
+
+
+def zero_hz(ctx, rng, xr):
+    """Frequency grids whose first bin is exactly 0 Hz (FFT-type axes) with energy in that bin: the moments,
+    heights and mean periods are still the defining sums (f**0 == 1 also at f == 0)."""
+    rec = ctx.rec
+    nf = int(rng.choice([3, 5, 9, 17, 33]))
+    f = np.linspace(0.0, float(rng.choice([0.25, 0.333, 0.5, 1.0])), nf)
+    th, dd, dmeta = gen.dir_grid(rng, nd=int(rng.choice([1, 4, 12, 24])), full=True)
+    names, sizes = gen.lead_dims(rng, nlead=int(rng.choice([0, 1])), maxsize=3)
+    A, classes = gen.stack_spectra(rng, f, th, sizes, cls=str(rng.choice(["noise", "multimodal", "plateau"])), distinct=False)
+    A[..., 0, :] = A[..., 0, :] + float(rng.uniform(0.05, 1.0)) * max(float(A.max()), 1e-3)     # energy at 0 Hz
+    edt = str(rng.choice(["float64", "float32"]))
+    da = gen.make_da(A, f, th, names, sizes, dtype=edt)
+    E = da.values.astype("float64")
+    e1 = I.e1d(E, dd, True)
+    rt = 2e-5 if edt == "float32" else 1e-10
+    acc = da.to_dataset(name="efth").spec if rng.random() < 0.5 else da.spec
+    key = "nf=%d|nd=%d|%s|lead=%d|fmax=%g" % (nf, len(th), edt, len(names), f[-1])
+    m = {n: I.momf(e1, f, n) for n in (0, 1, 2)}
+    refs = {"momf0": m[0], "momf1": m[1], "momf2": m[2], "hs_notail": 4 * np.sqrt(m[0]), "hrms_notail": np.sqrt(8 * m[0]),
+            "tm01": m[0] / m[1], "tm02": np.sqrt(m[0] / m[2])}
+    calls = {"momf0": lambda: acc.momf(0), "momf1": lambda: acc.momf(1), "momf2": lambda: acc.momf(2),
+             "hs_notail": lambda: acc.hs(tail=False), "hrms_notail": lambda: acc.hrms(tail=False), "tm01": lambda: acc.tm01(), "tm02": lambda: acc.tm02()}
+    for op, fn in calls.items():
+        try:
+            r = fn()
+            o = vals(r, list(names))
+        except Exception as e:
+            rec.bad("zero_hz:" + op, key, {"raised": repr(e)[:300], "freq": f}, None)
+            continue
+        ok, worst = close(o, refs[op], rt, 0.0)
+        if ok:
+            rec.ok("zero_hz:" + op, key)
+        else:
+            rec.bad("zero_hz:" + op, key, {"obs": o, "ref": refs[op], "worst_over_tol": worst, "freq": f, "dir": th, "E1d": e1}, "zero-frequency-bin-mishandled")
 
 
 # ---------------------------------------------------------------------------
